@@ -617,6 +617,10 @@ def _task_proxy(_):
         ('s', ('/obj', 'org.ex.T', 'Sig', 's', ['v']), None),
         ('s', ('/obj', 'org.ex.S', 'Sigg', 's', ['v']), None),
         ('', ('/obj', 'org.ex.S', 'Sig', '', []), ()),
+        # the same with the SIGNATURE field present and empty (what this
+        # library's own emitSignal writes; absent means the same)
+        ('', ('/obj', 'org.ex.S', 'Sig', 'explicit-empty', []), ()),
+        ('s', ('/obj', 'org.ex.S', 'Sig', 'explicit-empty', []), None),
         ('', ('/obj', 'org.ex.S', 'Sig', 's', ['v']), None),
         ('si', ('/obj', 'org.ex.S', 'Sig', 'si', ['v', 3]), ('v', 3)),
         ('(si)', ('/obj', 'org.ex.S', 'Sig', '(si)', [['v', 3]]),
@@ -667,9 +671,11 @@ def _task_proxy(_):
                         cw.deliver(R.encode_message(
                             R.METHOD_RETURN, 3002,
                             {'reply_serial': m2[0]['serial']}))
-                cw.deliver(R.encode_message(
-                    R.SIGNAL, 3003, {'path': path, 'interface': iface,
-                                     'member': member}, sig, body))
+                sf = {'path': path, 'interface': iface, 'member': member}
+                if sig == 'explicit-empty':
+                    sf['signature'] = ''
+                    sig = ''
+                cw.deliver(R.encode_message(R.SIGNAL, 3003, sf, sig, body))
                 exp = [] if (want is None or cancel_first) else [want]
                 norm = [tuple(a) for a in calls]
                 if norm != exp:
@@ -690,6 +696,58 @@ def _task_proxy(_):
                               {'part': 'proxy'}, size=1)
             finally:
                 cw.close()
+    # the signal bytes written by the library's own emitter (emitSignal of
+    # an exported object on another connection) instead of the reference
+    # encoder's
+    from txdbus import objects as O
+    for declared, args, want in (('', (), ()), ('s', ('v',), ('v',)),
+                                 ('si', ('v', 3), ('v', 3)),
+                                 ('as', (['a', 'b'],), (['a', 'b'],))):
+        res.count('states')
+        res.count('transitions', 2)
+        res.count('evaluations')
+        res.count('traces')
+        res.count('nontrivial')
+        a, b = fakes.ClientWorld(), fakes.ClientWorld()
+        try:
+            a.sent()
+            b.sent()
+            ifc = I.DBusInterface('org.ex.S', I.Signal('Sig', declared),
+                                  noRegister=True)
+
+            class Emitter(O.DBusObject):
+                dbusInterfaces = [ifc]
+            obj = Emitter('/obj')
+            a.conn.exportObject(obj)
+            a.transport.take()
+            out = []
+            b.conn.getRemoteObject('org.ex.Dest', '/obj', ifc)\
+                .addCallback(out.append)
+            calls = []
+            out[0].notifyOnSignal('Sig', lambda *x: calls.append(x))
+            m = b.sent()
+            b.deliver(R.encode_message(R.METHOD_RETURN, 3001,
+                                       {'reply_serial': m[0]['serial']}))
+            obj.emitSignal('Sig', *args)
+            raw = a.transport.take()
+            b.deliver(raw)
+            if [tuple(c) for c in calls] != [want]:
+                res.violation('%s/proxy/emitted/declared-%s'
+                              % (PROP, declared or 'none'),
+                              'a signal declared %r, emitted by an exported '
+                              'object with %r and handed to a subscribed '
+                              'proxy: callback invocations %r, expected %r '
+                              '(wire %s)' % (declared, args, calls, [want],
+                                             raw.hex()[:160]),
+                              {'part': 'proxy'}, size=1)
+        except Exception as e:
+            res.violation('%s/proxy/emitted/raises-%s'
+                          % (PROP, type(e).__name__),
+                          'emitting %r %r to a subscribed proxy raised %r'
+                          % (declared, args, e), {'part': 'proxy'}, size=1)
+        finally:
+            b.close()
+            a.close()
     return res
 
 
@@ -939,7 +997,9 @@ def _task_long_lived_router(gap):
 def run(ctx):
     mk = 3 if ctx.quick else 9
     ctx.rule = (
-        'A: every rule over the keys %r with each key absent or one of two '
+        '(D also: zero-argument signals with an explicit empty SIGNATURE '
+        'field; signals written by emitSignal of an exported object on '
+        'another connection) A: every rule over the keys %r with each key absent or one of two '
         'values (<= %d keys per rule: %d rules) against %d messages (4 types; '
         'interface/member hits and near misses; paths /, /a, /a/b, /a/bc, '
         '/a/b/c; destination absent/equal/other; %d bodies incl. missing, '
